@@ -25,8 +25,9 @@ import multiprocessing as mp
 import numpy as np
 
 VERIF = os.path.dirname(os.path.dirname(os.path.abspath(__file__)))
-REPLAY_DIR = os.path.join(VERIF, "replays")
-EVIDENCE_DIR = os.path.join(VERIF, "evidence")
+# overridable so that runs against a scratch tree (seeded changes, VERIF_REPO) do not overwrite the evidence of /repo
+REPLAY_DIR = os.environ.get("VERIF_REPLAY_DIR") or os.path.join(VERIF, "replays")
+EVIDENCE_DIR = os.environ.get("VERIF_EVIDENCE_DIR") or os.path.join(VERIF, "evidence")
 KNOWN_FILE = os.path.join(VERIF, "known_findings.json")
 
 
